@@ -45,6 +45,7 @@ class FnSpec:
     def __init__(self, file, impl_re, name):
         self.file, self.impl_re, self.name = file, impl_re, name
         self.tags = []
+        self.ctags = None
         self.ret = 'r'
         self.sections = {}      # 'requires' / 'ensures' / 'body-start' / ('loop',k,'pre'|'spec')
         self.anchors = []       # (where, fragment, text, lineno)
@@ -109,6 +110,8 @@ def load_overlay(path, variants=frozenset()):
                     cur.tags = [x for x in p[5:].split(',') if x]
                 elif p.startswith('ret='):
                     cur.ret = p[4:]
+                elif p.startswith('ctags='):
+                    cur.ctags = [x for x in p[6:].split(',') if x]
                 else:
                     raise Unsupported('%s:%d: unknown option %s' % (path, no, p))
             specs.append(cur)
@@ -857,6 +860,7 @@ def build_unit(name, repo, template_path, overlay_path, twin_false=False, varian
             parts.append(render(fo.toks))
             u.functions.append(dict(qual=fo.qual, file=ch[2], impl=ch[3], start=start, end=line,
                                     src_line=fo.src_line, tags=(fo.spec.tags if fo.spec else []),
+                                    ctags=((fo.spec.ctags or fo.spec.tags) if fo.spec else []),
                                     has_spec=fo.spec is not None, loops=fo.loops,
                                     idents=[t.text for t in fo.toks if t.origin == 'orig' and t.kind == 'ident']))
             for d in fo.dropped:
